@@ -232,9 +232,12 @@ def check_pairing(P, R):
     R.require(rms, 'remove: radidict.remove not found')
     for c in rms:
         n = g.node_of_stmt(c)[0]
-        route_rm = [m for m in g.nodes if m.kind == 'stmt' and (
-            (isinstance(m.ast, ast.Delete) and 'self.routes[' in src(m.ast)) or
-            any(isinstance(x, ast.Call) and dotted(x.func) == 'self.routes.pop' for x in walk_shallow(m.ast)))]
+        def drops_route(a_):
+            return (isinstance(a_, ast.Delete) and 'self.routes[' in src(a_)) or \
+                any(isinstance(x, ast.Call) and dotted(x.func) == 'self.routes.pop' for x in walk_shallow(a_))
+        route_rm = [m for m in g.nodes if (m.kind == 'stmt' and drops_route(m.ast)) or
+                    # a loop that drops one index entry per item of a list stands for the removal of them all
+                    (m.kind == 'for' and any(drops_route(s_) for s_ in m.ast.body))]
         ok = bool(route_rm) and not g.can_reach(n, g.exit, avoid_nodes=route_rm, labels_skip=('exc',))
         R.ob('C11.d', rm, c, ok, text='radidict.remove <-> routes index entry removed on every path', detail='' if ok else
              'a route removed from the tree stays in the routes index on some path', key_extra='routes')
@@ -246,7 +249,8 @@ def check_pairing(P, R):
              why='lookups by name and by rule agree with a freshly built router', key_extra='names')
     # prefix removal: the names are dropped for exactly the set of patterns dropped from the routes index
     for comp in [x for x in walk_shallow(rm.node) if isinstance(x, (ast.ListComp, ast.For))]:
-        pops_ = [c for c in ast.walk(comp) if isinstance(c, ast.Call) and dotted(c.func) == 'self.routes.pop']
+        pops_ = [c for c in ast.walk(comp) if (isinstance(c, ast.Call) and dotted(c.func) == 'self.routes.pop') or
+                 (isinstance(c, ast.Delete) and 'self.routes[' in src(c))]
         if not pops_:
             continue
         it_ = comp.generators[0].iter if isinstance(comp, ast.ListComp) else comp.iter
@@ -262,5 +266,6 @@ def check_pairing(P, R):
              why='lookups by name agree with a freshly built router', key_extra='prefix-names')
     # _remove_named_routers removes by pattern membership
     rn = cls_.methods['_remove_named_routers']
-    ok = any(isinstance(x, ast.Call) and dotted(x.func) == 'self.named_routes.pop' for x in ast.walk(rn.node)) and 'pattern' in src(rn.node)
+    ok = any((isinstance(x, ast.Call) and dotted(x.func) == 'self.named_routes.pop') or (isinstance(x, ast.Delete) and 'self.named_routes[' in src(x))
+             for x in ast.walk(rn.node)) and 'pattern' in src(rn.node)
     R.ob('C11.d', rn, rn.node, ok, text='_remove_named_routers pops every name whose route pattern was removed', detail='' if ok else '_remove_named_routers does not drop names by pattern')
